@@ -1,7 +1,8 @@
 #!/bin/sh
 # Build the replay crate against the current /repo tree (offline) and run one witness search.
-cd "$(dirname "$0")/../replay" || exit 2
-export CARGO_TARGET_DIR="$(dirname "$0")/../work/replay-target"
+ROOT="$(cd "$(dirname "$0")/.." && pwd)"
+cd "$ROOT/replay" || exit 2
+export CARGO_TARGET_DIR="$ROOT/work/replay-target"
 export CARGO_NET_OFFLINE=true
 cp /repo/Cargo.lock Cargo.lock 2>/dev/null
 cargo build --offline -q 2>/dev/null || { echo "BUILD-FAILED"; exit 2; }
